@@ -21,7 +21,8 @@ Checked, not translated (anything else raises Untranslatable; Model_Session.v do
   * Peer._run: try [_establish, _main]; handlers in this order and with these calls:
       NetworkError -> _reset;  Notify -> (if self.proto: new_notification (errors swallowed); _reset) else _reset;
       Notification -> _reset (no new_notification);  ProcessError -> _reset;  Interrupted -> _reset;  Exception -> _reset;
-  * Peer._close: processes.down under `fsm not in (IDLE, ACTIVE)`, then fsm.change(IDLE), then `if self.proto:
+  * Peer._close: processes.down under `fsm not in (IDLE, ACTIVE)`, then fsm.change(IDLE) (each possibly inside
+    `try .. except ProcessError: log`), then `if self.proto:
     .. self.proto.close(..)`, then self.proto = None;   Peer._reset: _close first, terminate when not _restart;
   * Peer.stop: fsm.change(IDLE); Peer.remove/shutdown: _stop then stop; Peer._stop: `if self.proto: self._close`;
   * Peer.handle_connection: ESTABLISHED -> return connection.notification(6, 7, ..); OPENCONFIRM compares
@@ -153,6 +154,12 @@ def tokens(stmts, out, cond=''):
             continue
         if isinstance(s, (ast.AsyncWith, ast.With)):
             tokens(s.body, out, cond)
+            continue
+        if isinstance(s, ast.Try) and not s.finalbody and not s.orelse and all(
+            dotted(h.type) == 'ProcessError' and all(is_log(x) for x in h.body) for h in s.handlers
+        ):
+            # `try: <calls> except ProcessError: log...`: the calls, protected against a failing API helper
+            tokens(s.body, out, cond + '[api-safe]')
             continue
         out.append(cond + u(s))
     return out
@@ -319,7 +326,7 @@ def check_close_reset_stop(tree):
     for i, t in enumerate(toks):
         if 'self.reactor.processes.down(self.neighbor, message)' in t:
             idx['down'] = i
-        elif t == 'self.fsm.change(FSM.IDLE)':
+        elif t in ('self.fsm.change(FSM.IDLE)', '[api-safe]self.fsm.change(FSM.IDLE)'):
             idx['fsm'] = i
         elif t.endswith('self.proto.close(message)'):
             if not t.startswith('[self.proto]'):
